@@ -9,6 +9,7 @@ Per history (a list of decoded events, see harness/props/_pipeline.py) two thing
    implementation did (outcome of every Interest, nothing left in the PIT, no internal error).
 """
 from harness.props import _pipeline as P
+from harness.props import _namebufs as NB
 
 RULE = ('histories over the name lattice /a, /a/b, /a/b/c, /x (with/without implicit digest), 1-6 concurrent Interests incl. '
         'several per name, events Express+Await/Data/Nack/VDone/Cancel/Shutdown/AdvanceTo with event times drawn at, one '
@@ -93,6 +94,14 @@ def run(ctx):
             P.check_history(ctx, fe, h, tag if tag.startswith('deferred-') else 'targeted-' + tag, 'C03')
         for k in range(ctx.n(300, 4000)):
             P.check_history(ctx, fe, P.rand_history_deferred(ctx.rng, fe), 'random-deferred-await', 'C03')
+        # caller-owned name buffers: every representation express accepts x the caller rewriting its buffers later on
+        for tag, h in NB.family(fe, full=ctx.thorough):
+            P.check_history(ctx, fe, h, tag, 'C03')
+        for tag, h in NB.transformed(fe, P.targeted(fe), full=ctx.thorough):
+            P.check_history(ctx, fe, h, tag, 'C03')
+        for k in range(ctx.n(400, 5000)):
+            base = P.rand_history_deferred(ctx.rng, fe) if k % 4 == 3 else P.fix_digest_names(P.rand_history(ctx.rng, fe, wf=True))
+            P.check_history(ctx, fe, NB.randomised(ctx.rng, fe, base), 'random-buffers', 'C03')
         n = ctx.n(900, 8000)
         for k in range(n):
             wf = ctx.rng.random() < 0.85
@@ -109,6 +118,15 @@ def run(ctx):
                 P.check_history(ctx, fe, h, f'enum{k}', 'C03')
                 cnt += 1
             ctx.stat(f'{fe}.enum.total', cnt)
+    for fe in ('v2', 'v1'):
+        for shape in ('digest-in-caller-buffer', 'node-name-in-caller-buffer'):
+            k = ctx.stats.get(f'{fe}.buffers.open-shape.{shape}', 0)
+            if k:
+                bad = ctx.stats.get(f'{fe}.buffers.open-shape.{shape}.oracle-fails', 0)
+                ctx.notes.append(f'{fe}: {k} histories of the shape {shape} (caller-owned name buffer rewritten while the Interest '
+                                 f'is pending, docs/C03.md "Caller-owned name buffers") were run but NOT judged and not compared with '
+                                 f'the model: the unchanged library fails the specification oracle on {bad} of them (genuine defect '
+                                 f'reported, decision pending; VERIF_C03_JUDGE_OPEN=1 judges them)')
     for fe in ('v2', 'v1'):
         k = ctx.stats.get(f'{fe}.deferred-await.not-judged', 0)
         if k:
